@@ -3,7 +3,11 @@
 Leg M: Session.tla: every operation is a function of its arguments; TLC checks the action
        properties Det and Frame on every history of <= MaxOps operations drawn from 9 operation
        instances (they hold by construction - the model has no hidden state) and emits the
-       histories.
+       histories.  The context is an argument as well: the family "contexts" of Session.tla has builds and
+       build + reuse operations under two contexts of one caller that bind the names the formulas call
+       (center, scale, tf, ns.tf) to different kinds of callable; Indep (every call returns what it
+       returns as the only call of a process) holds of the specification and TLC must refute it for
+       the Variant "memo_by_name" (what a name denotes remembered per name, process-wide).
 Leg R/T: every history is executed in fresh interpreters under three PYTHONHASHSEED values; after
        every step the harness fingerprints the result (bytes, column order, dropped rows) and
        every live object (frames, formula, un-materialised spec, the spec obtained earlier); TLC
@@ -45,26 +49,46 @@ def run_workers(hists, seed, tag):
 
 def run(ctx: Ctx) -> None:
     ctx.rule = ("every history of <= MaxOps operations over 12 operation instances (sugar build on two frames, Formula object, ONE shared un-materialised "
-                "ModelSpec on two frames, reuse / subset / pickle / update of an obtained spec, ONE shared materializer instance used with a formula for two outputs and with an obtained spec), each executed under 3 hash seeds; non-trivial = "
-                ">= 2 operations, at least one repeated or sharing an object")
+                "ModelSpec on two frames, reuse / subset / pickle / update of an obtained spec, ONE shared materializer instance used with a formula for two outputs and with an obtained spec) and every history of <= 3 operations over 6 "
+                "operation instances under two contexts binding the called names to different kinds of callable (build, build + reuse), each executed under 3 hash seeds; non-trivial = "
+                ">= 2 operations, at least one repeated or sharing an object or two contexts")
     ctx.trusted = ["structural fingerprints of frames / formulas / specs / matrices (bytes of the numeric payload)", "TLC"]
     out = workdir("c18") / "hist.ndjson"
     out.unlink(missing_ok=True)
     maxops = 3 if ctx.quick else 4
-    r = run_tlc("MC_Session", f"SPECIFICATION Spec\nCONSTANTS\n  MaxOps = {maxops}\n  Emit = TRUE\nPROPERTY Det\nPROPERTY Frame\nINVARIANT EmitCase\n", tag="c18",
-                env={"OUT_FILE": str(out)}, timeout=1800)
+    cfg = lambda n, fam="objects", variant="pure", emit="TRUE": (f'SPECIFICATION Spec\nCONSTANTS\n  MaxOps = {n}\n  Emit = {emit}\n  Family = "{fam}"\n  Variant = "{variant}"\n'
+                                                                  "PROPERTY Det\nPROPERTY Indep\nPROPERTY Frame\nINVARIANT EmitCase\n")
+    r = run_tlc("MC_Session", cfg(maxops), tag="c18", env={"OUT_FILE": str(out)}, timeout=1800)
     if r.violated:
         ctx.model_violation(r, "MC_Session")
-    ctx.add_tlc(r, f"Det and Frame action properties on all histories of <= {maxops} operations + emission")
+    ctx.add_tlc(r, f"Det, Indep and Frame action properties on all histories of <= {maxops} operations + emission")
     hists = [{"id": i + 1, "hist": x["hist"]} for i, x in enumerate(sorted(read_emitted(out), key=lambda x: x["hist"]))]
     out.unlink()
     if len(hists) != r.distinct - 1:
         raise MachineryError(f"emission incomplete: {len(hists)} of {r.distinct - 1}")
+    # family "contexts": the context is an argument too - histories of builds / reuses under TWO contexts of one caller that bind the names the formulas call
+    # (center, scale, tf, ns.tf) to different kinds of callable (built-in stateful transform vs the caller's plain function of that name, and the reverse)
+    rc = run_tlc("MC_Session", cfg(3, "contexts"), tag="c18", env={"OUT_FILE": str(out)}, timeout=1800)
+    if rc.violated:
+        ctx.model_violation(rc, "MC_Session (contexts)")
+    ctx.add_tlc(rc, "family contexts: Det, Indep and Frame on all histories of <= 3 operations over 6 operation instances under two contexts + emission")
+    chists = sorted(x["hist"] for x in read_emitted(out))
+    out.unlink()
+    if len(chists) != rc.distinct - 1:
+        raise MachineryError(f"emission incomplete (contexts): {len(chists)} of {rc.distinct - 1}")
+    known = {tuple(x["hist"]) for x in hists}
+    hists += [{"id": len(hists) + i + 1, "hist": hh} for i, hh in enumerate(hh for hh in chists if tuple(hh) not in known)]
+    # the law is not vacuous on this family: TLC refutes Indep for the design error of remembering per NAME what kind of callable it denotes
+    # (it cannot be refuted on the family "objects", where one context is shared by all operations - which is why this family exists)
+    bad = run_tlc("MC_Session", cfg(3, "contexts", "memo_by_name", "FALSE"), tag="c18", timeout=1800)
+    if not any(v.endswith("Indep") for v in bad.violated):
+        raise MachineryError("MC_Session variant memo_by_name does not violate Indep on the family contexts: the family is vacuous")
+    ctx.notes["session_model_variant_memo_by_name"] = "violates " + ",".join(bad.violated)
     # longer histories: random behaviours of Session (tlc -simulate), executed and validated like the enumerated ones
     from ..tlc import simulate_emitted
 
     deep = 9
-    sr, srecs = simulate_emitted("MC_Session", f"SPECIFICATION Spec\nCONSTANTS\n  MaxOps = {deep}\n  Emit = TRUE\nPROPERTY Det\nPROPERTY Frame\nINVARIANT EmitCase\n", "c18s",
+    sr, srecs = simulate_emitted("MC_Session", cfg(deep), "c18s",
                                  num=12 if ctx.quick else 150, depth=deep + 1, seed=ctx.seed + 1)
     if sr.violated:
         ctx.model_violation(sr, "MC_Session (simulation)")
@@ -113,7 +137,8 @@ def run(ctx: Ctx) -> None:
             ctx.evaluations += 1
             v = rejected.get(x["id"])
             hist = byid[x["id"]]["hist"]
-            if len(hist) >= 2 and (len(set(hist)) < len(hist) or sum(o.startswith("U") for o in hist) >= 2 or any(o in ("R", "S", "P", "UPD", "MR") for o in hist)):
+            if len(hist) >= 2 and (len(set(hist)) < len(hist) or sum(o.startswith("U") for o in hist) >= 2 or any(o in ("R", "S", "P", "UPD", "MR", "GR", "HR") for o in hist)
+                                   or (any(o in ("H1", "HR") for o in hist) and any(o in ("B1", "R", "G1", "GR") for o in hist))):     # two contexts in one history
                 ctx.nontrivial.add(jhash(hist))
             if v:
                 st = x["steps"][v["step"] - 1]
